@@ -29,6 +29,13 @@ def gen(rng, n):
     for mode in ("default", "lcm"):
         for end in ("ic",):
             hs.append(["N %s ignoreclose=0 openblock=1" % mode, end, "E"])
+    # the source transport is wedged: CloseSend on the source stream does not return by itself (the forwarder bounds it by
+    # a timeout); every ending kind at three positions (monitor only: the model has no notion of a blocking CloseSend)
+    for mode in ("default", "lcm"):
+        for end in ENDINGS + ["fi", "fs"]:
+            for pos in (0, 2, len(base)):
+                tail = ["s 9", "i 9"] if end in ("fi", "fs") else []
+                hs.append(["N %s ignoreclose=1 closewedge=1" % mode] + base[:pos] + [end] + base[pos:] + tail + ["E"])
     for _ in range(n):
         h = ["N %s ignoreclose=%d" % (rng.choice(["default", "lcm"]), rng.below(2))]
         k = 0
@@ -153,7 +160,7 @@ def check(tier, seed):
     diffs, mon = [], []
     distinct = set()
     for i, h in enumerate(hs):
-        if "openblock=1" not in h[0] and project(impl[i]) != project(model[i]):
+        if "openblock=1" not in h[0] and "closewedge=1" not in h[0] and project(impl[i]) != project(model[i]):
             diffs.append(i)
         b = monitor(h, impl[i])
         if b:
